@@ -65,7 +65,9 @@ pub(super) fn load_workbook<R: Read + std::io::Seek>(
                     sheets
                         .get(index)
                         .ok_or_else(|| {
-                            XlsxError::Xml(format!("Invalid localSheetId '{index}' in defined name"))
+                            XlsxError::Xml(format!(
+                                "Invalid localSheetId '{index}' in defined name"
+                            ))
                         })?
                         .sheet_id,
                 )
